@@ -278,7 +278,7 @@ func (d *database[T, O]) SelectSegments(timeRange timestamp.TimeRange, reopenClo
 	if d.closed.Load() {
 		return nil, nil
 	}
-	segments, err := d.segmentController.selectSegments(timeRange, reopenClosed)
+	segments, err := d.segmentController.selectSegmentsOpt(timeRange, reopenClosed, true)
 	if err != nil || d.disableRetention {
 		return segments, err
 	}
